@@ -369,13 +369,24 @@ def case_ufunc(ctx, inp):
             except ValueError:
                 ctx.note("where-shape-does-not-fit")
                 return
-            base = np.full(ref0.shape, 3, dtype=ref0.dtype) if ref0.dtype.kind != "b" else np.zeros(ref0.shape, dtype=bool)
+            kw = {}
+            odt = ref0.dtype
+            if inp.get("with_dtype"):
+                # where= and out= together with dtype= (the loop NumPy computes in)
+                kw = {"dtype": inp["target_dtype"]}
+                try:
+                    odt = np.asarray(npf(*xs, **kw)).dtype
+                except TypeError:
+                    ctx.note("numpy-rejects-target-dtype")
+                    return
+                ctx.branch("where+out+dtype")
+            base = np.full(ref0.shape, 3, dtype=odt) if odt.kind != "b" else np.zeros(ref0.shape, dtype=bool)
             out_np = base.copy()
-            ref = npf(*xs, where=w, out=out_np)
+            ref = npf(*xs, where=w, out=out_np, **kw)
             dout = da.from_array(base.copy(), chunks=tuple(tuple(c) for c in inp["ochunks"]))
             dw = da.from_array(w, chunks=tuple(tuple(c) for c in inp["wchunks"])) if inp.get("dask_where", True) else w
             try:
-                res = daf(*ds, where=dw, out=dout)
+                res = daf(*ds, where=dw, out=dout, **kw)
             except Exception as e:
                 ctx.fail(f"da.{dname}(where=, out=) raised: " + repr(e)[:160])
                 return
@@ -461,7 +472,8 @@ def gen_ufunc(rng, uf):
     return {"ufunc": list(uf), "shape": shape, "shape2": shape2, "dtype": dtype, "salt": rng.randint(0, 50),
             "chunks": U.rand_chunks(rng, shape), "chunks2": U.rand_chunks(rng, shape2), "mode": mode,
             "wshape": wshape, "wchunks": U.rand_chunks(rng, wshape), "ochunks": U.rand_chunks(rng, outshape),
-            "dask_where": rng.random() < 0.7, "out_tuple": rng.random() < 0.4, "target_dtype": target}
+            "dask_where": rng.random() < 0.7, "out_tuple": rng.random() < 0.4, "target_dtype": target,
+            "with_dtype": rng.random() < 0.3}
 
 
 # ------------------------------------------------------------------------------------------------
